@@ -265,7 +265,9 @@ func (c *Conv) items(root ast.Node, info *types.Info, off func(token.Pos) int, s
 			for _, cl := range n.Body.List {
 				comm := cl.(*ast.CommClause).Comm
 				if comm == nil {
-					it.Keys = append(it.Keys, [2]int{0, 0})
+					// `default:` — astSet.Insert(nil); never reported (a second default does not compile); the clause's
+					// own offset stands in for the position so that the entry moves with its declaration
+					it.Keys = append(it.Keys, [2]int{off(cl.Pos()), 0})
 				} else {
 					it.Keys = append(it.Keys, [2]int{off(comm.Pos()), c.Shapes.Of(comm)})
 				}
